@@ -18,6 +18,7 @@ import GitAiModel.Lemmas.TrackerMerge
 import GitAiModel.Lemmas.TrackerBoundaries
 import GitAiModel.Lemmas.TrackerWs
 import GitAiModel.Lemmas.TrackerInPlace
+import GitAiModel.Lemmas.TrackerProjection
 namespace GitAi.Tracker
 open GitAi
 
@@ -281,6 +282,83 @@ theorem witness_roundtrip_overlap :
     toLineAttrs (lineAttrsToAttrs [⟨1, 2, ['x'], none⟩, ⟨2, 2, ['y'], none⟩] [97, 10, 98, 10] 5) [97, 10, 98, 10]
       = .ok [⟨1, 2, ['x'], none⟩] := by decide
 
+/-! ## 3b. Line projection: whitespace never wins a line with content -/
+
+/-- **C16 line_winner_has_non_ws.** For every content, every line `[ls, le)` of it that holds a
+    non-whitespace character, and every set of active attributions: when the projection gives
+    the line to an author other than "human", one of that author's attributions covers a
+    non-whitespace character of the line (`NonWsOn`: the overlap with the line, widened to
+    character boundaries inside the line, is not whitespace-only) or is a zero-length deletion
+    marker on the line.  In particular indentation that was inserted in front of a person's line
+    and inherited the attribution of the line break before it cannot give the line away. -/
+theorem line_winner_has_non_ws (content : Text) (ls le : Nat) (active : List Attr) (line : Text)
+    (w : Str) (o : Option Str)
+    (hs : sliceStr content ls le = .ok line) (hnb : allWs line = false)
+    (h : lineResult content ls le active = .ok (some (w, o))) (hw : w ≠ human) :
+    ∃ a ∈ active, a.author = w ∧ (a.start = a.stop ∨ NonWsOn content ls le a) := by
+  have hne : line.isEmpty = false := by
+    cases line with
+    | nil => simp [allWs, wsRun] at hnb
+    | cons x xs => rfl
+  unfold lineResult at h
+  simp only [hs, hne, hnb, Bool.or_false] at h
+  cases hd : dominant content ls le false active with
+  | error e => simp [hd] at h
+  | ok d =>
+    simp only [hd] at h
+    injection h with h
+    injection h with h
+    subst h
+    rcases dominant_winner content ls le false active w o hd with ⟨e, _, _⟩ | ⟨a, ha, haw, hc⟩
+    · exact absurd e hw
+    · exact ⟨a, ha, haw, isCandidate_nonblank content ls le a hc⟩
+
+/-- **C16 whitespace_only_author_never_wins.** Contrapositive, the shape of the reported case: an
+    author (not "human") all of whose active attributions are non-empty and touch only whitespace
+    of a line that has content does not get the line. -/
+theorem whitespace_only_author_never_wins (content : Text) (ls le : Nat) (active : List Attr) (line : Text)
+    (w w' : Str) (o : Option Str)
+    (hs : sliceStr content ls le = .ok line) (hnb : allWs line = false) (hw : w ≠ human)
+    (hws : ∀ a ∈ active, a.author = w → a.start ≠ a.stop ∧ ¬ NonWsOn content ls le a)
+    (h : lineResult content ls le active = .ok (some (w', o))) : w' ≠ w := by
+  intro e
+  subst e
+  obtain ⟨a, ha, haw, hc⟩ := line_winner_has_non_ws content ls le active line w' o hs hnb h hw
+  have := hws a ha haw
+  rcases hc with hc | hc
+  · exact this.1 hc
+  · exact this.2 hc
+
+/-- non-vacuity of `NonWsOn` and of the hypotheses: "s }\n    h b;\n", line 2 = [4, 13); an
+    attribution over all of line 2 covers content; one over line 1 and the indentation of line 2
+    (bytes 0..8) touches only whitespace of line 2 -/
+example : NonWsOn [115, 32, 125, 10, 32, 32, 32, 32, 104, 32, 98, 59, 10] 4 13 ⟨4, 13, ['s'], 1⟩ :=
+  ⟨by decide, by decide, [32, 32, 32, 32, 104, 32, 98, 59, 10], by decide, by decide⟩
+example : ¬ NonWsOn [115, 32, 125, 10, 32, 32, 32, 32, 104, 32, 98, 59, 10] 4 13 ⟨0, 8, ['s'], 1⟩ := by
+  rintro ⟨_, _, sl, h1, h2⟩
+  have : sl = [32, 32, 32, 32] := by
+    have h1' : (Except.ok [32, 32, 32, 32] : Except Err Text) = .ok sl := by
+      rw [← h1]; decide
+    injection h1' with h1'
+    exact h1'.symm
+  subst this
+  exact absurd h2 (by decide)
+example : sliceStr [115, 32, 125, 10, 32, 32, 32, 32, 104, 32, 98, 59, 10] 4 13 = .ok [32, 32, 32, 32, 104, 32, 98, 59, 10]
+    ∧ allWs [32, 32, 32, 32, 104, 32, 98, 59, 10] = false := by decide
+
+/-- the reported shape end to end (known_findings `reconstruction-credits-reindented-human-line-
+    below-ai-line`, whose stated mechanism this refutes): session `s` owns line 1 including its
+    line break and the indentation inserted in front of the person's line 2; the projection
+    gives `s` line 1 only. -/
+theorem witness_reindent_below_ai_line :
+    toLineAttrs [⟨0, 8, ['s'], 1⟩] [115, 32, 125, 10, 32, 32, 32, 32, 104, 32, 98, 59, 10]
+      = .ok [⟨1, 1, ['s'], none⟩] := by decide
+
+/-- the marker disjunct is needed: a zero-length deletion marker of `s` on a line with content
+    whose text nobody else claims gives the line to `s` (by design: the deleting author) -/
+theorem witness_marker_wins_line :
+    toLineAttrs [⟨1, 1, ['s'], 1⟩] [120, 121, 10] = .ok [⟨1, 1, ['s'], none⟩] := by decide
+
 /-! ## 4. Identical text
 
   After the /repo fix "an unchanged content keeps its attributions in place" `update_attributions`
@@ -463,3 +541,7 @@ end GitAi.Tracker
 #print axioms GitAi.Tracker.no_panic
 #print axioms GitAi.Tracker.witness_bad_insertion_index
 #print axioms GitAi.Tracker.in_bounds
+#print axioms GitAi.Tracker.line_winner_has_non_ws
+#print axioms GitAi.Tracker.whitespace_only_author_never_wins
+#print axioms GitAi.Tracker.witness_reindent_below_ai_line
+#print axioms GitAi.Tracker.witness_marker_wins_line
